@@ -9,14 +9,18 @@ package vaa
 
 import (
 	"bufio"
+	"bytes"
 	"crypto/ecdsa"
+	"encoding/binary"
 	"encoding/hex"
 	"fmt"
 	"math/rand"
 	"os"
+	"os/exec"
 	"path/filepath"
 	"strconv"
 	"strings"
+	"sync"
 	"testing"
 	"time"
 
@@ -50,6 +54,8 @@ type vgen struct {
 	w    *bufio.Writer
 	n    int
 	dist map[string]int
+	// kinds of verification cases that also go through the wire path on the large (> 64 addresses) guardian lists
+	wireKinds map[string]bool
 }
 
 func (g *vgen) id(kind string) string {
@@ -114,10 +120,63 @@ func vsafeUnmarshal(b []byte) (v *VAA, res string) {
 	return v, "ok"
 }
 
-func (g *vgen) enc(v *VAA) []byte {
+// vsafeMarshal: Marshal's error (or panic) is a result of the case, never a failure of the harness.
+func vsafeMarshal(v *VAA) (out []byte, res string) {
+	defer func() {
+		if e := recover(); e != nil {
+			out, res = nil, "panic"
+		}
+	}()
 	out, err := v.Marshal()
 	if err != nil {
-		panic(err)
+		return nil, "err:" + vword(err.Error())
+	}
+	return out, "ok"
+}
+
+func vword(s string) string {
+	s = strings.Map(func(c rune) rune {
+		if c == ' ' || c == '\n' || c == '\t' || c == '=' {
+			return '_'
+		}
+		return c
+	}, s)
+	if len(s) > 120 {
+		s = s[:120]
+	}
+	return s
+}
+
+// hand-written encoder of the wire layout (1+4+1 header, 66-byte records, 53-byte fixed body part, payload = the rest),
+// independent of Marshal / serializeBody: used where a case needs wire bytes the implementation's encoder might refuse or reorder.
+func vwireBody(v *VAA) []byte {
+	b := make([]byte, 53, 53+len(v.Payload))
+	binary.BigEndian.PutUint32(b[0:], uint32(v.Timestamp.Unix()))
+	binary.BigEndian.PutUint32(b[4:], v.Nonce)
+	binary.BigEndian.PutUint16(b[8:], uint16(v.EmitterChain))
+	binary.BigEndian.PutUint16(b[10:], uint16(v.TargetChain))
+	copy(b[12:44], v.EmitterAddress[:])
+	binary.BigEndian.PutUint64(b[44:], v.Sequence)
+	b[52] = v.ConsistencyLevel
+	return append(b, v.Payload...)
+}
+
+func vwire(v *VAA) []byte {
+	b := []byte{v.Version, 0, 0, 0, 0, uint8(len(v.Signatures))}
+	binary.BigEndian.PutUint32(b[1:], v.GuardianSetIndex)
+	for _, s := range v.Signatures {
+		b = append(b, s.Index)
+		b = append(b, s.Signature[:]...)
+	}
+	return append(b, vwireBody(v)...)
+}
+
+func (g *vgen) enc(v *VAA) []byte {
+	out, mres := vsafeMarshal(v)
+	if mres != "ok" {
+		// no encoding at all: the driver decides whether the value was in the statement's domain
+		fmt.Fprintf(g.w, "enc %s v=%s out=- back=nomarshal merr=%s\n", g.id("enc"), vcanon(v), mres)
+		return nil
 	}
 	d0 := v.SigningMsg()
 	bv, back := vsafeUnmarshal(out)
@@ -133,8 +192,11 @@ func (g *vgen) dec(b []byte) {
 	v, res := vsafeUnmarshal(b)
 	line := fmt.Sprintf("dec %s in=%s res=%s", g.id("dec"), vhex(b), res)
 	if res == "ok" {
-		re, _ := v.Marshal()
+		re, mres := vsafeMarshal(v)
 		line += fmt.Sprintf(" v=%s re=%s", vcanon(v), vhex(re))
+		if mres != "ok" {
+			line += " reerr=" + mres
+		}
 	}
 	fmt.Fprintln(g.w, line)
 }
@@ -206,6 +268,19 @@ func (g *vgen) body(v *VAA) {
 	fmt.Fprintf(g.w, "body %s v=%s body=%s dig=%x kk=%x\n", g.id("body"), vcanon(v), vhex(b), v.SigningMsg().Bytes(), kk)
 }
 
+// C04, wire form: the bytes the contracts hash are everything after the 6 + 66*k byte header of the serialized VAA (k = the count
+// byte at offset 5); they must be the signing body, and their double Keccak the digest the guardians sign - for every payload
+// length, 0 included, and every signature count.
+func (g *vgen) wire(v *VAA) {
+	out, mres := vsafeMarshal(v)
+	b := v.SerializeBody()
+	kkw := "-"
+	if mres == "ok" && len(out) >= 6 && len(out) >= 6+66*int(out[5]) {
+		kkw = hex.EncodeToString(crypto.Keccak256(crypto.Keccak256(out[6+66*int(out[5]):])))
+	}
+	fmt.Fprintf(g.w, "wire %s v=%s res=%s out=%s body=%s dig=%x kkw=%s\n", g.id("wire"), vcanon(v), mres, vhex(out), vhex(b), v.SigningMsg().Bytes(), kkw)
+}
+
 func vclone(v *VAA) *VAA {
 	c := *v
 	c.Payload = append([]byte{}, v.Payload...)
@@ -253,6 +328,13 @@ func (g *vgen) digestLaws(v *VAA) {
 		}
 		fmt.Fprintf(g.w, "ne %s body-field-%d-not-in-signing-body %s %s\n", g.id("fld"), i, vhex(v.SerializeBody()), vhex(c.SerializeBody()))
 		fmt.Fprintf(g.w, "ne %s body-field-%d-not-in-digest %s %x\n", g.id("fld"), i, d, c.SigningMsg().Bytes())
+		// ... and the serialized VAAs (same header, same signatures) differ as well: the contracts recompute the digest from the wire
+		// form, so two messages with different bodies cannot share one
+		wv, r1 := vsafeMarshal(v)
+		wc, r2 := vsafeMarshal(c)
+		if r1 == "ok" && r2 == "ok" {
+			fmt.Fprintf(g.w, "ne %s wire-form-shared-by-different-bodies-field-%d %s %s\n", g.id("fld"), i, vhex(wv), vhex(wc))
+		}
 	}
 }
 
@@ -281,32 +363,26 @@ func vsign(k vkey, digest []byte) [65]byte {
 	return out
 }
 
-func (g *vgen) ver(kind string, v *VAA, addrs []common.Address) {
-	// the digest for the oracle is recomputed from the body bytes, never taken from the VAA's own SigningMsg()
-	digest := crypto.Keccak256(crypto.Keccak256(v.SerializeBody()))
-	res := func() (r string) {
-		defer func() {
-			if e := recover(); e != nil {
-				r = "panic"
-			}
-		}()
-		return strconv.FormatBool(v.VerifySignatures(addrs))
-	}()
-	as := "-"
-	if len(addrs) > 0 {
-		p := make([]string, len(addrs))
-		for i, a := range addrs {
-			p[i] = hex.EncodeToString(a.Bytes())
-		}
-		as = strings.Join(p, ",")
+func vaddrs(addrs []common.Address) string {
+	if len(addrs) == 0 {
+		return "-"
 	}
-	sigs := "-"
-	rec := "-"
-	if len(v.Signatures) > 0 {
-		p := make([]string, len(v.Signatures))
+	p := make([]string, len(addrs))
+	for i, a := range addrs {
+		p[i] = hex.EncodeToString(a.Bytes())
+	}
+	return strings.Join(p, ",")
+}
+
+// vsigsRec renders the signature list and the ecrecover oracle table (one independent crypto.Ecrecover per distinct signature
+// over `digest`).
+func vsigsRec(sigl []*Signature, digest []byte) (sigs, rec string) {
+	sigs, rec = "-", "-"
+	if len(sigl) > 0 {
+		p := make([]string, len(sigl))
 		seen := map[string]bool{}
 		var rp []string
-		for i, s := range v.Signatures {
+		for i, s := range sigl {
 			sh := hex.EncodeToString(s.Signature[:])
 			p[i] = fmt.Sprintf("%d:%s", s.Index, sh)
 			if !seen[sh] {
@@ -323,7 +399,45 @@ func (g *vgen) ver(kind string, v *VAA, addrs []common.Address) {
 		sigs = strings.Join(p, ";")
 		rec = strings.Join(rp, ";")
 	}
+	return
+}
+
+func vsafeVerify(v *VAA, addrs []common.Address) (r string) {
+	defer func() {
+		if e := recover(); e != nil {
+			r = "panic"
+		}
+	}()
+	return strconv.FormatBool(v.VerifySignatures(addrs))
+}
+
+func (g *vgen) ver(kind string, v *VAA, addrs []common.Address) {
+	// the digest for the oracle is recomputed from the body bytes, never taken from the VAA's own SigningMsg()
+	digest := crypto.Keccak256(crypto.Keccak256(v.SerializeBody()))
+	res := vsafeVerify(v, addrs)
+	as := vaddrs(addrs)
+	sigs, rec := vsigsRec(v.Signatures, digest)
 	fmt.Fprintf(g.w, "ver %s addrs=%s sigs=%s rec=%s res=%s\n", g.id("ver-"+kind+"-"), as, sigs, rec, res)
+	// the same VAA on the WIRE path every consumer of gossiped / stored VAAs takes: bytes -> Unmarshal -> VerifySignatures.  The wire
+	// bytes are written by the harness' own encoder (records in exactly the order of v.Signatures); the oracle digest is the double
+	// Keccak of the wire's body section.  What the wire carries (record order included) is read off the bytes by the driver.
+	if len(v.Payload) == 0 || len(v.Signatures) > 255 || v.Version != 1 {
+		return
+	}
+	if len(addrs) > 64 && !g.wireKinds[kind] {
+		return
+	}
+	in := vwire(v)
+	wd := crypto.Keccak256(crypto.Keccak256(in[6+66*len(v.Signatures):]))
+	if !bytes.Equal(wd, digest) {
+		_, rec = vsigsRec(v.Signatures, wd)
+	}
+	dv, dres := vsafeUnmarshal(in)
+	wres := "-"
+	if dres == "ok" {
+		wres = vsafeVerify(dv, addrs)
+	}
+	fmt.Fprintf(g.w, "wver %s in=%s addrs=%s rec=%s dec=%s res=%s\n", g.id("wver-"+kind+"-"), vhex(in), as, rec, dres, wres)
 }
 
 func (g *vgen) verifyFamily(keys []vkey, n int, repeats bool) {
@@ -366,6 +480,20 @@ func (g *vgen) verifyFamily(keys []vkey, n int, repeats bool) {
 		c = vclone(valid)
 		c.Signatures[i+1].Index = c.Signatures[i].Index
 		g.ver("sameindex", c, addrs)
+	}
+	if len(idx) >= 2 {
+		// the whole (individually valid) list in reverse order, rotated by one, and with its two ends exchanged
+		c := vclone(valid)
+		for a, b := 0, len(c.Signatures)-1; a < b; a, b = a+1, b-1 {
+			c.Signatures[a], c.Signatures[b] = c.Signatures[b], c.Signatures[a]
+		}
+		g.ver("reverse", c, addrs)
+		c = vclone(valid)
+		c.Signatures = append(c.Signatures[1:], c.Signatures[0])
+		g.ver("rotate", c, addrs)
+		c = vclone(valid)
+		c.Signatures[0], c.Signatures[len(c.Signatures)-1] = c.Signatures[len(c.Signatures)-1], c.Signatures[0]
+		g.ver("swapends", c, addrs)
 	}
 	// ordering at the numeric boundaries of the index (0, 127|128 = int8 wrap, 254|255): every signature below is valid for
 	// the position it claims; only the order differs.  Descending or repeated orders must fail, ascending ones succeed.
@@ -542,7 +670,352 @@ func (g *vgen) verifyFamily(keys []vkey, n int, repeats bool) {
 	}
 }
 
+// Guardian lists WITH a repeated address (the statement quantifies over them): the address of position a is also put at position b
+// (every pair a < b for small lists; boundary and random pairs for large ones), all other addresses distinct.  A signature of that
+// guardian is valid for the first position as well as for the second ("recovers ... to the address at the guardian index it
+// claims"), alone and among other valid signers; claiming both counts one guardian twice; the key that used to sit at b is an outsider
+// now.  Triples likewise.
+func (g *vgen) repeatFamily(keys []vkey, n int) {
+	r := g.r
+	if n < 2 {
+		return
+	}
+	type pair struct{ a, b int }
+	var pairs []pair
+	if n <= 20 {
+		for a := 0; a < n; a++ {
+			for b := a + 1; b < n; b++ {
+				pairs = append(pairs, pair{a, b})
+			}
+		}
+	} else {
+		cand := []pair{{0, 1}, {0, n - 1}, {n - 2, n - 1}, {0, n / 2}, {n / 2, n - 1}, {1, 2}, {18, 19}, {19, 20}, {63, 64}, {126, 127}, {127, 128}, {128, 129}, {0, 128}, {127, 254}, {253, 254}}
+		for _, p := range cand {
+			if p.b < n && p.a < p.b {
+				pairs = append(pairs, p)
+			}
+		}
+		for k := 0; k < 6; k++ {
+			a := r.Intn(n - 1)
+			pairs = append(pairs, pair{a, a + 1 + r.Intn(n-a-1)})
+		}
+	}
+	base := g.randVAA(0, 1+r.Intn(40))
+	digest := crypto.Keccak256(crypto.Keccak256(vwireBody(base)))
+	addrs := make([]common.Address, n)
+	for i := range addrs {
+		addrs[i] = keys[i].addr
+	}
+	sigOf := map[int][65]byte{} // signature of keys[i] over the digest, made once
+	sg := func(i int) [65]byte {
+		if s, ok := sigOf[i]; ok {
+			return s
+		}
+		s := vsign(keys[i], digest)
+		sigOf[i] = s
+		return s
+	}
+	mk := func(claims [][2]int) *VAA { // (claimed index, signing key)
+		c := vclone(base)
+		for _, cl := range claims {
+			c.Signatures = append(c.Signatures, &Signature{Index: uint8(cl[0]), Signature: sg(cl[1])})
+		}
+		return c
+	}
+	full := n <= 7
+	for pi, p := range pairs {
+		a, b := p.a, p.b
+		ad2 := append([]common.Address{}, addrs...)
+		ad2[b] = ad2[a]
+		g.ver("repeat-first", mk([][2]int{{a, a}}), ad2)
+		g.ver("repeat-second", mk([][2]int{{b, a}}), ad2)
+		g.ver("repeat-both", mk([][2]int{{a, a}, {b, a}}), ad2)
+		if !full && pi%9 != 0 && !(n > 20) {
+			continue
+		}
+		g.ver("repeat-displaced", mk([][2]int{{b, b}}), ad2)
+		// among other valid signers (positions other than a and b, each with its own key)
+		var withA, withB [][2]int
+		for i := 0; i < n; i++ {
+			switch {
+			case i == a:
+				withA = append(withA, [2]int{a, a})
+			case i == b:
+				withB = append(withB, [2]int{b, a})
+			case r.Intn(3) != 0 && (n <= 20 || r.Intn(n) < 12):
+				withA = append(withA, [2]int{i, i})
+				withB = append(withB, [2]int{i, i})
+			}
+		}
+		g.ver("repeat-first-among", mk(withA), ad2)
+		g.ver("repeat-second-among", mk(withB), ad2)
+	}
+	if n >= 3 {
+		var triples [][3]int
+		if n <= 5 {
+			for a := 0; a < n; a++ {
+				for b := a + 1; b < n; b++ {
+					for c := b + 1; c < n; c++ {
+						triples = append(triples, [3]int{a, b, c})
+					}
+				}
+			}
+		} else {
+			triples = append(triples, [3]int{0, 1, 2}, [3]int{0, n / 2, n - 1}, [3]int{n - 3, n - 2, n - 1})
+			for k := 0; k < 3; k++ {
+				a := r.Intn(n - 2)
+				b := a + 1 + r.Intn(n-a-2)
+				triples = append(triples, [3]int{a, b, b + 1 + r.Intn(n-b-1)})
+			}
+		}
+		for _, t := range triples {
+			ad3 := append([]common.Address{}, addrs...)
+			ad3[t[1]] = ad3[t[0]]
+			ad3[t[2]] = ad3[t[0]]
+			g.ver("repeat3-first", mk([][2]int{{t[0], t[0]}}), ad3)
+			g.ver("repeat3-middle", mk([][2]int{{t[1], t[0]}}), ad3)
+			g.ver("repeat3-last", mk([][2]int{{t[2], t[0]}}), ad3)
+			g.ver("repeat3-two", mk([][2]int{{t[0], t[0]}, {t[2], t[0]}}), ad3)
+			g.ver("repeat3-all", mk([][2]int{{t[0], t[0]}, {t[1], t[0]}, {t[2], t[0]}}), ad3)
+		}
+	}
+}
+
+// ---------------------------------------------------------------- concurrent callers (C04, C06)
+//
+// "The digest ... does not depend on ... which guardian computes it": SigningMsg / SerializeBody / Marshal / VerifySignatures are called
+// from several goroutines in the node (processor loop, admin RPC, inbound VAA verification).  The scenario runs in a CHILD process
+// (this test binary re-executed with VERIF_CONC_OUT set) so that a fatal runtime error becomes a line of the case file instead of
+// killing the harness: digest workers hash their own VAAs (bodies of 54 bytes .. 70 KB) in rounds released by a barrier while a
+// marshaller and two verifiers run; every result is compared with the value the SAME call returned sequentially before the workers
+// were started.  No sleeps; the amount of work is fixed.
+type vconcWorker struct {
+	what        string
+	calls, bad  int
+	panics      int
+	want, got   string // first deviating call (or the last call when none deviates)
+	run         func(k int) (want, got string)
+	desc        func(k int) string // the VAA call number k works on
+	firstK      int
+	verV        *VAA
+	verAddrs    []common.Address
+	verFirstBad string
+}
+
+func vconcChild(t *testing.T, outPath string) {
+	seed, _ := strconv.ParseInt(os.Getenv("VERIF_SEED"), 10, 64)
+	f, err := os.Create(outPath)
+	if err != nil {
+		t.Fatal(err)
+	}
+	defer f.Close()
+	g := &vgen{r: rand.New(rand.NewSource(seed ^ 0x5eed5eed)), w: bufio.NewWriterSize(f, 1<<16), dist: map[string]int{}}
+	const nDigest = 6
+	var ws []*vconcWorker
+	for w := 0; w < nDigest; w++ {
+		var vs []*VAA
+		for _, pl := range []int{0, 1, 1 + g.r.Intn(200), 1000 + g.r.Intn(100), 20000 + g.r.Intn(50000)} {
+			vs = append(vs, g.randVAA(g.r.Intn(3), pl))
+		}
+		if w%2 == 1 { // small bodies only: many short calls against the long ones of the neighbours
+			vs = vs[:3]
+		}
+		seq := make([]string, len(vs))
+		for i, v := range vs {
+			seq[i] = hex.EncodeToString(v.SigningMsg().Bytes())
+		}
+		ws = append(ws, &vconcWorker{what: "digest", run: func(k int) (string, string) {
+			i := k % len(vs)
+			return seq[i], hex.EncodeToString(vs[i].SigningMsg().Bytes())
+		}, desc: func(k int) string { return vcanon(vs[k%len(vs)]) }})
+	}
+	{
+		var vs []*VAA
+		for _, pl := range []int{0, 7, 300, 5000} {
+			vs = append(vs, g.randVAA(g.r.Intn(4), pl))
+		}
+		seq := make([]string, len(vs))
+		for i, v := range vs {
+			o, r := vsafeMarshal(v)
+			seq[i] = r + ":" + vhex(o)
+		}
+		ws = append(ws, &vconcWorker{what: "wire", run: func(k int) (string, string) {
+			i := k % len(vs)
+			o, r := vsafeMarshal(vs[i])
+			return seq[i], r + ":" + vhex(o)
+		}, desc: func(k int) string { return vcanon(vs[k%len(vs)]) }})
+	}
+	// two verifiers: a valid 5-of-7 list and the same with two signatures exchanged
+	keys := make([]vkey, 7)
+	addrs := make([]common.Address, 7)
+	for i := range keys {
+		keys[i] = vnewKey()
+		addrs[i] = keys[i].addr
+	}
+	for k := 0; k < 2; k++ {
+		v := g.randVAA(0, 1+g.r.Intn(300))
+		d := crypto.Keccak256(crypto.Keccak256(vwireBody(v)))
+		for _, i := range []int{0, 2, 3, 5, 6} {
+			v.Signatures = append(v.Signatures, &Signature{Index: uint8(i), Signature: vsign(keys[i], d)})
+		}
+		if k == 1 {
+			v.Signatures[1], v.Signatures[3] = v.Signatures[3], v.Signatures[1]
+		}
+		seq := vsafeVerify(v, addrs)
+		w := &vconcWorker{what: "verify", verV: v, verAddrs: addrs}
+		w.run = func(int) (string, string) { return seq, vsafeVerify(v, addrs) }
+		ws = append(ws, w)
+	}
+	// A round that does not come back is a result as well (a shared hashing state can be left in a condition in which a call never
+	// returns): the watchdog below only ever fires on such a hang - the work of a round is a few milliseconds - and turns it into a
+	// case line; it is no pacing device.
+	rounds, per := 24, 40
+	const watchdog = 15 * time.Second
+	var mu sync.Mutex // guards the counters of all workers
+	badKinds := map[string]bool{}
+	badCh := make(chan struct{}) // closed at the first deviating call
+	hung := -1
+	for round := 0; round < rounds && len(badKinds) < 3 && hung < 0; round++ {
+		start := make(chan struct{})
+		var wg sync.WaitGroup
+		for _, w := range ws {
+			w := w
+			wg.Add(1)
+			go func() {
+				defer wg.Done()
+				<-start
+				n := per
+				if w.what == "verify" {
+					n = per / 8
+				}
+				for k := 0; k < n; k++ {
+					want, got := func() (want, got string) {
+						defer func() {
+							if e := recover(); e != nil {
+								want, got = "completes", "panic:"+vword(fmt.Sprint(e))
+							}
+						}()
+						return w.run(round*per + k)
+					}()
+					mu.Lock()
+					w.calls++
+					if w.calls == 1 || (want != got && w.bad == 0) {
+						w.want, w.got, w.firstK = want, got, round*per+k
+					}
+					if want != got {
+						w.bad++
+						if strings.HasPrefix(got, "panic:") {
+							w.panics++
+						}
+						if len(badKinds) == 0 {
+							close(badCh)
+						}
+						badKinds[w.what] = true
+					}
+					mu.Unlock()
+				}
+			}()
+		}
+		close(start)
+		fin := make(chan struct{})
+		go func() { wg.Wait(); close(fin) }()
+		timer := time.NewTimer(watchdog)
+		select {
+		case <-fin:
+		case <-timer.C:
+			hung = round
+		case <-badCh:
+			// a deviation is on record already; the stuck round adds the fact that it is stuck, no need to wait for long
+			short := time.NewTimer(watchdog / 5)
+			select {
+			case <-fin:
+			case <-short.C:
+				hung = round
+			}
+			short.Stop()
+		}
+		timer.Stop()
+	}
+	mu.Lock() // (held to the end when a worker hangs: the others cannot move the counters any more)
+	if hung >= 0 {
+		fmt.Fprintf(g.w, "conc conc-hang-0 what=process calls=0 bad=1 panics=0 want=completes got=hang:round-%d-of-concurrent-calls-did-not-return-within-%s\n", hung, watchdog)
+	}
+	for i, w := range ws {
+		short := func(s string) string {
+			if len(s) > 200 {
+				return s[:200] + "..."
+			}
+			return s
+		}
+		if w.what == "verify" {
+			// a full `ver` line: the Spec (Valid) is evaluated on the result obtained under concurrency
+			digest := crypto.Keccak256(crypto.Keccak256(vwireBody(w.verV)))
+			sigs, rec := vsigsRec(w.verV.Signatures, digest)
+			fmt.Fprintf(g.w, "ver ver-concurrent-%d addrs=%s sigs=%s rec=%s res=%s\n", i, vaddrs(w.verAddrs), sigs, rec, strings.SplitN(w.got, ":", 2)[0])
+			continue
+		}
+		on := "-"
+		if w.bad > 0 && w.desc != nil {
+			on = w.desc(w.firstK)
+			if len(on) > 3000 {
+				on = on[:3000] + "..."
+			}
+		}
+		fmt.Fprintf(g.w, "conc conc-%s-%d what=%s calls=%d bad=%d panics=%d want=%s got=%s v=%s\n", w.what, i, w.what, w.calls, w.bad, w.panics, short(w.want), short(w.got), on)
+	}
+	fmt.Fprintln(g.w, "# done")
+	g.w.Flush()
+	if hung >= 0 {
+		f.Close()
+		os.Exit(0) // goroutines stuck inside the package would keep the test binary alive
+	}
+}
+
+// vconc runs the child and copies its lines; a child that died (fatal runtime error, unrecovered panic in a goroutine the runtime
+// started, os.Exit) is itself a case line.
+func (g *vgen) vconc(t *testing.T) {
+	outPath := filepath.Join(os.Getenv("VERIF_OUT"), "vaa.conc")
+	os.Remove(outPath)
+	cmd := exec.Command(os.Args[0], "-test.run=^TestVerifVaa$", "-test.count=1")
+	cmd.Env = append(os.Environ(), "VERIF_CONC_OUT="+outPath)
+	var stderr bytes.Buffer
+	cmd.Stdout = &stderr
+	cmd.Stderr = &stderr
+	if err := cmd.Start(); err != nil {
+		t.Fatalf("cannot start the child process for the concurrency scenario: %v", err)
+	}
+	// second line of defence behind the child's own watchdog: a child that neither finishes nor reports is killed
+	kill := time.AfterFunc(90*time.Second, func() { cmd.Process.Kill() })
+	werr := cmd.Wait()
+	kill.Stop()
+	data, _ := os.ReadFile(outPath)
+	os.Remove(outPath)
+	done := false
+	for _, ln := range strings.Split(string(data), "\n") {
+		if ln == "# done" {
+			done = true
+		} else if ln != "" {
+			fmt.Fprintln(g.w, ln)
+			g.dist[strings.TrimRight(strings.SplitN(ln, " ", 3)[1], "0123456789")]++
+		}
+	}
+	if !done || werr != nil {
+		info := "no-output"
+		for _, ln := range strings.Split(stderr.String(), "\n") {
+			if strings.HasPrefix(ln, "fatal error:") || strings.HasPrefix(ln, "panic:") || strings.Contains(ln, "SIGSEGV") {
+				info = vword(ln)
+				break
+			}
+		}
+		fmt.Fprintf(g.w, "conc %s what=process calls=0 bad=1 panics=0 want=completes got=crash:%s\n", g.id("conc-crash-"), info)
+	}
+}
+
 func TestVerifVaa(t *testing.T) {
+	if p := os.Getenv("VERIF_CONC_OUT"); p != "" {
+		vconcChild(t, p)
+		return
+	}
 	seed, _ := strconv.ParseInt(os.Getenv("VERIF_SEED"), 10, 64)
 	thorough := os.Getenv("VERIF_TIER") == "thorough"
 	f, err := os.Create(filepath.Join(os.Getenv("VERIF_OUT"), "vaa.cases"))
@@ -552,6 +1025,8 @@ func TestVerifVaa(t *testing.T) {
 	defer f.Close()
 	g := &vgen{r: rand.New(rand.NewSource(seed)), w: bufio.NewWriterSize(f, 1<<20), dist: map[string]int{}}
 	defer g.w.Flush()
+	g.wireKinds = map[string]bool{"valid": true, "swap": true, "reverse": true, "rotate": true, "swapends": true, "order-desc": true, "dup": true,
+		"outsider": true, "bodyflip": true, "dropone": true, "repeatedkey": true, "repeat-first": true, "repeat-second": true, "repeat-both": true}
 
 	part := os.Getenv("VERIF_PART")
 	plens := []int{1, 2, 3, 52, 53, 100, 999, 1000, 1001, 1002, 1024, 2000, 4096}
@@ -579,7 +1054,11 @@ func TestVerifVaa(t *testing.T) {
 				}
 				v := g.randVAA(ns, pl)
 				out := g.enc(v)
+				if out == nil {
+					out = vwire(v) // Marshal refused: the mutations below start from the hand-written encoding
+				}
 				g.body(v)
+				g.wire(v)
 				if round == 0 && pl <= 1002 {
 					g.digestLaws(v)
 				}
@@ -617,14 +1096,43 @@ func TestVerifVaa(t *testing.T) {
 				}
 			}
 		}
+		// signature counts around the int8 / uint8 boundaries of the one-byte count ("at most 255 signatures"): encode, decode, and the
+		// mutations of the count byte; Marshal's refusal is a result of the case
+		for _, ns := range []int{126, 127, 128, 129, 192, 254, 255} {
+			v := g.randVAA(ns, []int{1, 60, 1000}[(round+ns)%3])
+			out := g.enc(v)
+			if out == nil {
+				out = vwire(v)
+			}
+			g.wire(v)
+			g.dec(out)
+			for _, d := range []int{-1, 1} {
+				m := append([]byte{}, out...)
+				m[5] = byte(ns + d)
+				g.dec(m)
+			}
+			g.dec(out[:len(out)-1-g.r.Intn(50)])
+		}
 		// out-of-domain encodes: empty payload, timestamps beyond 32 bits
 		v := g.randVAA(g.r.Intn(3), 0)
 		g.enc(v)
 		g.body(v)
+		g.wire(v)
+		g.digestLaws(v)
+		for _, ns := range []int{0, 1, 19, 255} {
+			// C04 is about every payload length, 0 included, and every signature count
+			e := g.randVAA(ns, 0)
+			if round%2 == 1 {
+				e.Payload = nil
+			}
+			g.body(e)
+			g.wire(e)
+		}
 		v = g.randVAA(1, 5)
 		v.Timestamp = time.Unix(int64(1)<<32+int64(g.r.Intn(100000)), 5)
 		g.enc(v)
 		g.body(v)
+		g.wire(v)
 		if thorough {
 			g.enc(g.randVAA(256, 3))
 			g.enc(g.randVAA(300, 3))
@@ -673,7 +1181,13 @@ func TestVerifVaa(t *testing.T) {
 			}
 			g.verifyFamily(keys, n, false)
 			g.verifyFamily(keys, n, true)
+			if k == 0 && (!thorough || n <= 20 || n%16 == 0 || (n >= 126 && n <= 130) || n >= 254) {
+				g.repeatFamily(keys, n)
+			}
 		}
+	}
+	if part == "" || part == "c04" || part == "c06" {
+		g.vconc(t)
 	}
 	df, _ := os.Create(filepath.Join(os.Getenv("VERIF_OUT"), "vaa.dist"))
 	for k, v := range g.dist {
